@@ -353,8 +353,83 @@ func replayPair(cipher int) *engine.Scenario {
 	return sc
 }
 
+// probeVsAuth: a probe arriving at the same time as a legitimate connection. The legitimate
+// client comes from the same IP address as the probe (sameIP), or from another address after the
+// probe's address was the last one to use the key. Whatever the interleaving of the two
+// handshakes (key search of the probe against the usage marking of the legitimate connection),
+// the probe is absorbed like any other and the legitimate connection is served.
+func probeVsAuth(sameIP bool, n int) *engine.Scenario {
+	type res struct {
+		closedAt time.Duration
+		read     int64
+		got      int
+		rst      bool
+	}
+	var r res
+	var okPlain string
+	sc := &engine.Scenario{Name: fmt.Sprintf("probe-vs-auth[sameip=%v,%d]", sameIP, n), Opt: vrt.Options{Horizon: 10 * time.Minute}}
+	sc.Body = func() {
+		r, okPlain = res{}, ""
+		vnet.Reset()
+		hk.ResetLogs()
+		keys := world.MixedKeys(4)
+		w := world.NewTCP(keys, 0, T)
+		w.Start()
+		tgt := world.StartTarget("93.184.216.34:80", func(t *world.Target, i int, c *vnet.TCPConn) {
+			c.Write([]byte("reply from the target"))
+			t.ReadAll(i, c)
+			c.Close()
+		})
+		probeIP, legitIP := "203.0.113.30", "203.0.113.30"
+		if !sameIP {
+			legitIP = "203.0.113.31"
+			// the probe's address is the one that used key 2 last
+			pre := world.Dial(probeIP + ":0")
+			pre.Send(world.EncodeStream(keys[2], 70, world.Addr("93.184.216.34:80"), []byte("earlier")), 0)
+			pre.CloseWrite()
+			pre.ReadAll()
+			pre.Close()
+			vrt.WaitIdle()
+		}
+		probe := make([]byte, n)
+		io.ReadFull(vrt.DetRand(uint64(950+n)), probe)
+		pc := world.Dial(probeIP + ":0")
+		prd := vrt.Spawn("probe-reader", func() { pc.ReadAll() })
+		legit := vrt.Spawn("legit", func() {
+			cl := world.Dial(legitIP + ":0")
+			cl.Send(world.EncodeStream(keys[2], 71, world.Addr("93.184.216.34:80"), []byte("hello")), 0)
+			cl.CloseWrite()
+			cl.ReadAll()
+			cl.Close()
+			plain, _ := world.DecodeStream(keys[2], cl.Got)
+			okPlain = string(plain)
+		})
+		pc.Send(probe, 0)
+		vrt.Join(legit)
+		vrt.Sleep(T + 30*time.Second)
+		srv := pc.C.Peer()
+		r = res{closedAt: srv.ClosedAt, read: srv.BytesRead, got: len(pc.Got), rst: srv.SentRST || pc.C.GotRST()}
+		pc.Close()
+		vrt.Join(prd)
+		vrt.WaitIdle()
+		w.Stop()
+		tgt.Ln.Close()
+	}
+	sc.Check = func(x *vrt.Exec) (string, bool, []*engine.Finding) {
+		fs := hk.Generic(x, hk.Opts{})
+		if len(fs) == 0 {
+			if r.closedAt != T || r.got != 0 || r.rst || r.read != int64(n) {
+				fs = append(fs, &engine.Finding{Sig: "probe-not-absorbed{concurrent-auth}", Msg: fmt.Sprintf("probe of %d bytes arriving while a legitimate client authenticates (same IP: %v): read %d bytes, wrote %d, closed at %v (want %v), reset=%v", n, sameIP, r.read, r.got, r.closedAt, T, r.rst)})
+			}
+		}
+		return fmt.Sprint(r, okPlain), true, fs
+	}
+	return sc
+}
+
 func pairScenarios() []*engine.Scenario {
-	return []*engine.Scenario{pairScenario(60, 80), pairScenario(10, 200), pairScenario(0, 51), replayPair(0), replayPair(2)}
+	return []*engine.Scenario{pairScenario(60, 80), pairScenario(10, 200), pairScenario(0, 51), replayPair(0), replayPair(2),
+		probeVsAuth(true, 60), probeVsAuth(false, 60)}
 }
 
 func x() *vrt.Exec { return vrt.Cur() }
@@ -427,7 +502,7 @@ func init() {
 		}
 	})
 	hk.Replayers["C06"] = func(ctx *engine.Ctx, rp engine.Replay) []*engine.Finding {
-		if strings.HasPrefix(rp.Unit, "probe-pair") || strings.HasPrefix(rp.Unit, "replay-pair") {
+		if strings.HasPrefix(rp.Unit, "probe-pair") || strings.HasPrefix(rp.Unit, "replay-pair") || strings.HasPrefix(rp.Unit, "probe-vs-auth") {
 			return engine.ReplayScenario(pairScenarios(), rp)
 		}
 		var s Spec
